@@ -96,6 +96,13 @@ def gen_actions(rng):
                 ['GET', {'transport': 'polling', 'EIO': '4', 'sid': '$',
                          'j': 'abc'}],
                 ['POST', {'transport': 'polling', 'EIO': '4', 'sid': 'nope'}],
+                ['POST', {'transport': 'polling', 'EIO': '4', 'sid': '$',
+                          'j': 'abc'}],
+                ['PUT', {'transport': 'polling', 'EIO': '4', 'j': 'x'}],
+                ['OPTIONS', {'transport': 'foo'}],
+                ['POST', {'transport': 'websocket', 'EIO': '4', 'sid': '$'}],
+                ['GET', {'transport': 'polling', 'EIO': '4', 'sid': '$',
+                         'j': '2'}],
                 ['POST', {'transport': 'polling', 'EIO': '4'}],
                 ['OPTIONS', {'transport': 'polling', 'EIO': '4'}],
                 ['DELETE', {'sid': '$'}]])])
